@@ -4,6 +4,7 @@
 -/
 import Fx.Index
 import Fx.Walk
+import Fx.Lemmas.ParseNorm
 namespace Fx.C12
 open Fx
 
@@ -385,5 +386,42 @@ theorem C12_root_items (ns : List Node) (items : List Item) (h : itemsOf ns = .o
           | [], h1 => cases h1
           | [_], h1 => cases h1
           | _ :: _ :: _ :: _, h1 => cases h1
+
+/-! ### from the text: "whatever the layout, comments or declaration order"
+
+`Parse.Spec` is the concrete syntax of the grammar regenerated from `src/xdr.pest`, with a layout (blanks, tabs, line ends,
+block and line comments, in any number and order) at every gap between two tokens; `Spec.ok` is the decidable
+well-formedness (identifiers, numbers, two names separated by something, the white space after a built-in word inside its
+token, a line comment ended by a line end, no `*/` inside a block comment); `Spec.norm` forgets every layout. -/
+
+/-- `Ast::new` after the parser -/
+def frontOf : Out Ast → FrontRes
+  | .ok a => .ok a
+  | .panicAt f m => .panicAt f m
+
+/-- **the parser accepts every well-formed text**, with the token tree its declarations determine (`Spec.root`: one token per
+    declaration, declarator, arm, label, bound …; the texts of the leaves are the names and numbers as written) — for every
+    sufficient recursion budget -/
+theorem C12_parse_complete (s : Parse.Spec) (h : s.ok = true) :
+    ∃ F, ∀ f, F ≤ f → Peg.evalRule Grammar.xdr f false "item" ⟨0, s.text⟩ = .ok ⟨s.text.length, []⟩ [s.root] := by
+  obtain ⟨F, hF⟩ := Parse.spec_parses s h
+  exact ⟨F, fun f hf => Peg.rule_lift _ hF (by simp) hf⟩
+
+/-- **the AST is a function of the declarations alone.**  For every well-formed text, `Ast::new` returns what the
+    constructors make of the *layout-free* token tree `s.norm.root` — no layout, comment or white-space choice is visible in
+    the result (unless the model's recursion budget for this text length is exhausted, which the T3 tie would show).
+    Together with the constructor theorems above (labels, fields, members conserved) this is faithfulness from the text. -/
+theorem C12_ast_from_declarations (s : Parse.Spec) (h : s.ok = true) :
+    Ast.new (String.ofList s.text) = .outOfFuel ∨ Ast.new (String.ofList s.text) = frontOf (Ast.ofPairs [s.norm.root]) := by
+  unfold Ast.new
+  rw [String.toList_ofList]
+  rcases Parse.spec_parseWith s h with hp | hp
+  · refine .inr ?_
+    have hw : Ast.ofPairs [s.root] = Ast.ofPairs [s.norm.root] := by
+      simp only [Ast.ofPairs, Parse.walk_sim _ _ (Parse.spec_sim s h)]
+    rw [show Peg.parseWith Grammar.xdr "item" s.text = _ from hp]
+    simp only [hw]
+    cases Ast.ofPairs [s.norm.root] <;> rfl
+  · exact .inl (by rw [show Peg.parseWith Grammar.xdr "item" s.text = _ from hp])
 
 end Fx.C12
